@@ -185,6 +185,45 @@ def run(tier, seed, rng):
         if pk != {'ok': want}:
             failures.append(dict(kind='oracle', sig='empty-inside', what=f"an empty field placed at {o} inside earlier bytes, then a field placed at {K}: the output {pk} does not hold the fields where they were read ({want})",
                                  classes=zsrc, cls=cls, raw=want, offset=0, observed=oo, required=dict(packed=want)))
+    # ---- the target of at / shift is a DESCRIBED field (Auto): the position is the number on the wire, when parsing as when
+    # serializing, whether the user forced it or the descriptor computed it
+    dsrc = ("from bisturi.descriptor import Auto\n"
+            "class DAt(Packet):\n    off = Int(1).describe(Auto(lambda pkt: 3))\n    body = Data(4).at(off)\n    t = Int(1)\n"
+            "class DAtL(Packet):\n    __bisturi__ = {'generate_for_pack': False, 'generate_for_unpack': False}\n    off = Int(1).describe(Auto(lambda pkt: 3))\n    body = Data(4).at(off)\n    t = Int(1)\n"
+            "class DShift(Packet):\n    k = Int(1).describe(Auto(lambda pkt: 1))\n    body = Data(2).shift(k)\n    t = Int(1)\n"
+            "class DOut(Packet):\n    h = Int(1)\n    r = Ref(DAt)\n")
+    dcases, dmeta = [], []
+    for cls in ('DAt', 'DAtL'):
+        for off in (None, 3, 1, 5, 8):
+            kw = "body=b'BODY', t=7" + ("" if off is None else f", off={off}")
+            o2 = 3 if off is None else off
+            raw = bytes([o2]) + b'.' * (o2 - 1) + b'BODY' + b'\x07'
+            dcases.append(dict(cls=cls, op='pack', value={"py": f"{cls}({kw})"})); dmeta.append(('pack', cls, raw, kw))
+            dcases.append(dict(cls=cls, op='roundtrip', raw=raw.hex(), offset=0)); dmeta.append(('unpack', cls, raw, kw))
+            if cls == 'DAt':
+                dcases.append(dict(cls='DOut', op='roundtrip', raw=(b'\x09' + raw).hex(), offset=0)); dmeta.append(('unpack-nested', 'DOut', b'\x09' + raw, kw))
+    for k in (None, 1, 0, 3):
+        kw = "body=b'xy', t=7" + ("" if k is None else f", k={k}")
+        k2 = 1 if k is None else k
+        raw = bytes([k2]) + b'.' * k2 + b'xy' + b'\x07'
+        dcases.append(dict(cls='DShift', op='pack', value={"py": f"DShift({kw})"})); dmeta.append(('pack', 'DShift', raw, kw))
+        dcases.append(dict(cls='DShift', op='roundtrip', raw=raw.hex(), offset=0)); dmeta.append(('unpack', 'DShift', raw, kw))
+    dres = run_impl(os.path.join(VERIF, 'harness', 'impl_pkt.py'), dict(header=HEADER_PY, blocks=[dict(name='desc', src=dsrc)], modname='c10d', cases=dcases))
+    dist['described_targets'] = len(dcases)
+    for (kind, cls, raw, kw), o in zip(dmeta, dres['outcomes']):
+        if kind == 'pack':
+            ok = o.get('ok') == raw.hex()
+        else:
+            body = None
+            if 'ok' in o:
+                f = dict(o['ok']['f'])
+                if kind == 'unpack-nested':
+                    f = dict(f['r']['f'])
+                body = f.get('body')
+            ok = 'ok' in o and body == {'x': (b'BODY' if cls != 'DShift' else b'xy').hex()} and o.get('end') == len(raw)       # (what pack() gives afterwards is C17's subject: the described field reads as computed again)
+        if not ok:
+            failures.append(dict(kind='oracle', sig='described-target', what=f"{cls}({kw}): a field placed at / shifted by a described field must be written and read at the position the number on the wire says ({raw.hex()}); {kind} gives {str(o)[:300]}",
+                                 classes=dsrc, cls=cls, raw=raw.hex(), offset=0, observed=o))
     csize = 800
     files = [(f"cases_{i}", HEADER_COQ + "Definition cases : list case := [\n" + ";\n".join(p) + "\n].\nEval vm_compute in (bad 0 cases).\n")
              for i, p in enumerate(shard(lines, csize))]
